@@ -24,6 +24,18 @@ Theorem C15_front_raw_doc_strings : forall uc attrs,
 Proof. exact Proofs.C15.parse_comment_attrs_spec. Qed.
 Print Assumptions C15_front_raw_doc_strings.
 
+(* the same in the vocabulary of the specification: a doc attribute with value v is carried as [c15_carried uc v]
+   (= trim v); safe_<l>, known_C15 and good_C15 are decided on these carried strings *)
+Theorem C15_front_carried : forall uc attrs,
+  parse_comment_attrs uc attrs =
+  map (c15_carried uc)
+      (flat_map (fun a => match a_meta a with
+                          | MNV p (VStr s) => if path_is_ident p (lit "doc") then [s] else []
+                          | _ => []
+                          end) attrs).
+Proof. exact Proofs.C15.parse_comment_attrs_carried. Qed.
+Print Assumptions C15_front_carried.
+
 (* ---- the fragments of Spec/C15Spec.v are what the model's six write_comments print, for any doc
    list and any indentation: same text, and the doc pieces are exactly the doc strings, in order
    (so every doc string is reproduced verbatim) ---- *)
